@@ -1070,3 +1070,4 @@ end Agd.Access
 #print axioms Agd.Tie.TrC10.backend_access_total
 #print axioms Agd.Tie.TrC10.backend_access_enabled_iff
 #print axioms Agd.Tie.TrC10.cache_access_present_iff
+#print axioms Agd.Tie.TrC10.lowerRule_tr
